@@ -171,6 +171,10 @@ pub struct ExtractCase {
     pub picks: Vec<u8>,
     pub xref_stream: bool,
     pub split_tj: bool,
+    /// 0: one text object with Tf inside; 1: Tf before BT (the font is graphics state, ISO 32000-1 9.3.1);
+    /// 2: two text objects, Tf only in the first (it persists across ET/BT)
+    #[serde(default)]
+    pub layout: u8,
 }
 
 /// characters of an encoding that survive encode -> decode
@@ -204,8 +208,23 @@ pub fn check_extract(c: &ExtractCase) -> Verdict {
     let text: String = c.picks.iter().map(|p| rep_chars[(*p as usize * rep_chars.len()) >> 8]).collect();
     let bytes = Document::encode_text(&enc, &text);
     drop(enc);
-    let mut ops = vec![Operation::new("BT", vec![]), Operation::new("Tf", vec!["F1".into(), 12.into()]), Operation::new("Td", vec![100.into(), 600.into()])];
-    if c.split_tj && bytes.len() >= 2 {
+    let tf = Operation::new("Tf", vec!["F1".into(), 12.into()]);
+    let mut ops = match c.layout % 3 {
+        1 => vec![tf, Operation::new("BT", vec![]), Operation::new("Td", vec![100.into(), 600.into()])],
+        _ => vec![Operation::new("BT", vec![]), tf, Operation::new("Td", vec![100.into(), 600.into()])],
+    };
+    let mut expected = format!("{}\n", text);
+    if c.layout % 3 == 2 && text.chars().count() >= 2 {
+        // two text objects: the second relies on the font selected in the first
+        let cut = text.char_indices().nth(text.chars().count() / 2).map(|(i, _)| i).unwrap_or(0);
+        let (ta, tb) = text.split_at(cut);
+        ops.push(Operation::new("Tj", vec![Object::string_literal(Document::encode_text(&doc.get_dictionary(font_id).unwrap().get_font_encoding(&doc).unwrap(), ta))]));
+        ops.push(Operation::new("ET", vec![]));
+        ops.push(Operation::new("BT", vec![]));
+        ops.push(Operation::new("Td", vec![100.into(), 500.into()]));
+        ops.push(Operation::new("Tj", vec![Object::string_literal(Document::encode_text(&doc.get_dictionary(font_id).unwrap().get_font_encoding(&doc).unwrap(), tb))]));
+        expected = format!("{}\n{}\n", ta, tb);
+    } else if c.split_tj && bytes.len() >= 2 {
         let (a, b) = bytes.split_at(bytes.len() / 2);
         ops.push(Operation::new("Tj", vec![Object::string_literal(a.to_vec())]));
         ops.push(Operation::new("Tj", vec![Object::String(b.to_vec(), StringFormat::Hexadecimal)]));
@@ -224,7 +243,6 @@ pub fn check_extract(c: &ExtractCase) -> Verdict {
     } else {
         doc.reference_table.cross_reference_type = lopdf::xref::XrefType::CrossReferenceTable;
     }
-    let expected = format!("{}\n", text);
     let got = no_panic("extract_text", || doc.extract_text(&[1]))?.map_err(|e| viol!("extraction-differs", "extract_text fails: {:?}", e))?;
     if got != expected {
         return Err(viol!("extraction-differs", "{}: page shows {:?} (bytes {:?}) but extract_text returns {:?}", name, text, crate::model::B(bytes), got));
@@ -237,6 +255,8 @@ pub fn check_extract(c: &ExtractCase) -> Verdict {
     }
     rep.label_if(!text.is_ascii(), "non-ascii");
     rep.label_if(c.split_tj, "two-Tj");
+    rep.label_if(c.layout % 3 == 1, "Tf-before-BT");
+    rep.label_if(c.layout % 3 == 2, "two-text-objects-one-Tf");
     rep.nontrivial = text.chars().count() >= 4 && !text.is_ascii();
     Ok(rep)
 }
@@ -289,7 +309,7 @@ pub fn run(run: &mut Run) {
     run.enumerated("encoding-cells", cells, true, "5 encodings x 256 bytes", check_cell);
     run.campaign(
         "extraction",
-        || (0u8..5, vec(any::<u8>(), 1..20), any::<bool>(), any::<bool>()).prop_map(|(encoding, picks, xref_stream, split_tj)| ExtractCase { encoding, picks, xref_stream, split_tj }),
+        || (0u8..5, vec(any::<u8>(), 1..20), any::<bool>(), any::<bool>(), 0u8..3).prop_map(|(encoding, picks, xref_stream, split_tj, layout)| ExtractCase { encoding, picks, xref_stream, split_tj, layout }),
         run.tier.pick(6_000, 200_000),
         check_extract,
         |_c, _v| None,
